@@ -9,7 +9,9 @@ apps-blacklist event, `apps` re-evaluation event, clock ticks; `cycle` (what `ru
 iteration: reschedule + check_placement_integrity), `restart` (fresh Master on the same store:
 load_model + init_schedule + first cycle), `crash k` (the next cycle stops after k storage
 writes - the real write hook -, then a restart) and `offline [...]` (presence / instance changes
-that happen while NO master is running: the fail-over window; a new master starts afterwards).
+that happen while NO master is running: the fail-over window; a new master starts afterwards;
+`inject` sub-ops put records no correct master writes into the store: a second record of a placed
+instance, a record of a pending / unscheduled instance, a record under a server without record).
 A master that dies on an unhandled exception (utils.exit_on_unhandled) is replaced by a new one.
 Everything runs under an integer virtual clock (seconds; znode ctime / mtime are the same clock in
 ms); `Application.global_order` is made strictly increasing in creation order (DESIGN.md 3.3).
@@ -61,7 +63,8 @@ RULE = {
     'C09': 'random histories of 20-60 ZooKeeper-level events (instances +/-/finished, presence bounce, server '
            'record resize/partition/traits/delete/re-add + servers event, allocations moved, identity groups '
            'resized/deleted, server_state up/down/frozen, blacklist, ticks) each followed by a master cycle, '
-           'with restarts and crash-cuts in the middle; non-trivial = >=1 server bounce or reload AND >=1 '
+           'with restarts, crash-cuts and fail-over windows (offline events, injected double / stale / orphan '
+           'records) in the middle; non-trivial = >=1 server bounce or reload AND >=1 '
            'eviction or identity change AND a restart; distinct = op-list hash',
     'C10': 'shorter histories of the same kind (more fail-over windows with offline events); every master write of '
            'every operation (event handlers, cycles, start-up) is enumerated as a crash point followed by a '
